@@ -75,3 +75,71 @@ def compare_plain(case, resp, cs, expect_errors=False):
         out.append("unexpected errors %r" % (resp.get("errors"),))
     out.extend(compare_calls(case, cs))
     return out
+
+
+def compare_faults(case, resp, cs, doc):
+    """C02 comparison: data exactly; every error corresponds to a failure the
+    specification raises (path), is located inside the failing field's text, carries a
+    message; every nulled position is explained by >= 1 error; library errors keep
+    message and extensions."""
+    out = []
+    if not isinstance(resp, dict) or "__raised__" in resp:
+        return ["execute raised or returned a non-dict: %r" % (resp,)]
+    exp = render.value_py(case["data"])
+    if not render.strict_eq(resp.get("data"), exp):
+        out.append("data %r != expected %r" % (resp.get("data"), exp))
+    errs = resp.get("errors")
+    exp_errs = {tuple(e["path"]): e for e in case["errs"]}
+    overlay = {tuple(p): o for p, o in case["overlay"]}
+    if not case["errs"]:
+        if errs:
+            out.append("unexpected errors %r" % (errs,))
+    else:
+        if not isinstance(errs, list) or not errs:
+            out.append("errors missing although failures occurred")
+            errs = []
+    apaths = []
+    for e in errs or []:
+        if not isinstance(e, dict) or not isinstance(e.get("message"), str):
+            out.append("error entry without string message: %r" % (e,))
+            continue
+        p = e.get("path")
+        if not isinstance(p, list):
+            out.append("error without path: %r" % (e,))
+            continue
+        sp = tuple(render.path_spec(p))
+        apaths.append(sp)
+        ee = exp_errs.get(sp)
+        if ee is None:
+            out.append("error at %s does not correspond to a failure (expected failures at %s)" % (list(sp), sorted(map(list, exp_errs))))
+            continue
+        locs = e.get("locations")
+        if not isinstance(locs, list) or not locs:
+            out.append("error at %s has no locations" % (list(sp),))
+        else:
+            for l in locs:
+                if not any(doc.within(nid, l.get("line"), l.get("column")) for nid in ee["nodes"]):
+                    out.append("error at %s location %r outside the failing field's text" % (list(sp), l))
+        ov = overlay.get(sp)
+        if ov and ov["o"] == "raiseLib" and any(tuple(c["path"]) == sp for c in case["calls"]):
+            if e["message"] != "lib@" + "/".join(sp) or e.get("extensions") != {"code": "/".join(sp)}:
+                out.append("library error at %s lost its message/extensions: %r" % (list(sp), e))
+    ats = [tuple(n["at"]) for n in case["nulls"]]
+    for n in case["nulls"]:
+        at = tuple(n["at"])
+        if any(o != at and at[:len(o)] == o for o in ats):
+            continue    # inside an already nulled subtree: not visible in data, needs no explanation of its own
+        why = {tuple(w) for w in n["why"]}
+        if not any(a in why for a in apaths):
+            out.append("nulled position %s is not explained by any error (candidates %s, got %s)" % (n["at"], sorted(map(list, why)), sorted(map(list, apaths))))
+    out.extend(compare_calls(case, cs, exact=False))
+    return out
+
+
+def fault_class(case):
+    """(failure kind, nullability layout root->fault, inside-list?, depth) per fault"""
+    out = []
+    for p, o in case["overlay"]:
+        out.append((o["o"], o.get("tn", ""), len(p), any(x.startswith("#") for x in p),
+                    tuple(sorted((tuple(n["at"]) == tuple(p)[:len(n["at"])], len(n["at"])) for n in case["nulls"]))))
+    return tuple(sorted(out))
